@@ -1,9 +1,14 @@
-(* Correspondence checker for C10 (timeline part): segmentation, get_overlap. *)
-From PV Require Import Model.Timeline.
-Record case := K { c_eps : Z; c_t : list seg; o_segmentation : list seg; o_overlap : list seg }.
+(* Correspondence checker for C10: segmentation, Timeline.get_overlap, Annotation.get_overlap. *)
+From PV Require Import Check.AnnCommon.
+Inductive case :=
+| K (c_eps : Z) (c_t : list seg) (o_segmentation : list seg) (o_overlap : list seg)
+| KAnn (eps : Z) (recs : list triple) (labs : option (list name)) (o_overlap : list seg).
 Definition check (c : case) : nat :=
-  let eps := c_eps c in
-  let t := tl_of eps (c_t c) in
-  if list_eqb seqb (o_segmentation c) (segmentation eps t)
-     && list_eqb seqb (o_overlap c) (get_overlap eps t)
-  then 0%nat else 1%nat.
+  match c with
+  | K eps segs oseg oov =>
+      let t := tl_of eps segs in
+      if list_eqb seqb oseg (segmentation eps t) && list_eqb seqb oov (get_overlap eps t) then 0%nat else 1%nat
+  | KAnn eps recs labs oov =>
+      let a := ann_of eps None None recs in
+      if list_eqb seqb oov (get_overlap_ann eps a labs) then 0%nat else 1%nat
+  end.
